@@ -31,7 +31,7 @@ CACHE = os.path.join(ROOT, ".cache", "mut")
 REPO = "/repo"
 DRIVER = os.path.join(ROOT, "lean", ".lake", "build", "bin", "driver")
 HB = os.path.join(ROOT, ".cache", "target", "release", "harness")
-SCR = "/tmp/mutw"
+SCR = "/tmp/mutw" + ("-" + sys.argv[sys.argv.index("--base") + 1] if "--base" in sys.argv else "")
 ALL_STREAMS = ["ent", "fix", "tbl", "misc", "sdt", "cks", "aml", "amlalt", "path", "int", "intblk", "eisa", "uuid",
                "pkglen", "eisablk", "amlbig", "tblbig"]
 ORDER = {
@@ -53,6 +53,7 @@ STMT = re.compile(r"^\s*(?:[A-Za-z_][\w\.\[\]\(\)&\* ]*\.\w+!?\(.*\)|[a-z_][\w:]
 def code_part(line):
     """the part of a source line that is code (no // comment); string literals blanked"""
     s = re.sub(r'"(?:[^"\\]|\\.)*"', lambda m: '"' + " " * (len(m.group(0)) - 2) + '"', line)
+    s = re.sub(r"/\*.*?\*/", lambda m: " " * len(m.group(0)), s)
     i = s.find("//")
     return s if i < 0 else s[:i]
 
@@ -178,8 +179,13 @@ def flines(path):
     return out, done
 
 
+BASE = "base"
+if "--base" in sys.argv:
+    BASE = sys.argv[sys.argv.index("--base") + 1]
+
+
 def base():
-    b = os.path.join(CACHE, "base")
+    b = os.path.join(CACHE, BASE)
     os.makedirs(b, exist_ok=True)
     for s in ALL_STREAMS + ["pkgblk"]:
         c = os.path.join(b, s + ".cases")
@@ -258,7 +264,7 @@ def run_one(w, m, basef):
         work = os.path.join(d, "work")
         os.makedirs(work, exist_ok=True)
         for s in order:
-            c = os.path.join(CACHE, "base", s + ".cases")
+            c = os.path.join(CACHE, BASE, s + ".cases")
             mid = os.path.join(work, s + ".mid")
             outp = os.path.join(work, s + ".out")
             rc, out = sh("%s run < %s > %s" % (hb, c, mid), timeout=300)
@@ -333,7 +339,7 @@ def run():
     if opt("--sample"):
         random.Random(int(opt("--seed", "1"))).shuffle(muts)
         muts = muts[:int(opt("--sample"))]
-    basef = {s: set(json.load(open(os.path.join(CACHE, "base", s + ".base.json")))) for s in ALL_STREAMS + ["pkgblk"]}
+    basef = {s: set(json.load(open(os.path.join(CACHE, BASE, s + ".base.json")))) for s in ALL_STREAMS + ["pkgblk"]}
     print("running", len(muts), "mutants on", jobs, "workers", flush=True)
     # group by file per worker so incremental builds stay warm
     random.Random(12345).shuffle(muts)  # partial results are a uniform sample
